@@ -52,6 +52,7 @@ module default {
     type Award extending Named {
         link winner := .<awards[is User];
     }
+    type Pet extending Named { multi nick: str; age: int64; owner: User; }
     type Event extending Named, Dated { multi guests: User; }
     type Note extending Dated {
         required body: str;
